@@ -277,6 +277,11 @@ class Session(object):
 
     def w_clear(self):
         x = self.r.random()
+        if x < 0.15:
+            d = self.r.choice(RULE_NAMES); self.dflt = d
+            r = self.do("overwrite %s %s" % (d, self.rules_arg()))
+            self.pages = []
+            return r
         if x < 0.6:
             d = self.r.choice(RULE_NAMES); self.dflt = d
             r = self.do("clear %s %s" % (d, self.rules_arg()))
@@ -350,7 +355,7 @@ class Session(object):
         a = brack([hx(p) for p in ps])
         i, n, o = self.r.choice(["000", "100", "010", "001", "110", "101", "011", "111"])
         self.q("pagelinks %d %s %s %s %s" % (w, a, i, n, o))
-        self.q("weout %d %s" % (w, a)); self.q("wein %d %s" % (w, a))
+        self.q("weout %d %s" % (w, a)); self.q("wein %d %s" % (w, a)); self.q("wedeg %d %s" % (w, a))
 
     def r_pagelinks(self):
         l = self.page_lru()
